@@ -238,18 +238,19 @@ class Sequencer(object):
         tick = 0.0  # place in beat from 0.0 to bar.length
         cur = [0] * len(bars)  # keeps the index of the NoteContainer under
         # investigation in each of the bars
+        started = [-1] * len(bars)  # the index of the NoteContainer that was
+        # started last in each of the bars
         playing = []  # The NoteContainers being played.
 
-        while tick < bars[0].length:
-            # Prepare a and play a list of NoteContainers that are ready for it.
-            # The list `playing_new` holds both the duration and the
-            # NoteContainer.
-            playing_new = []
+        while tick < bars[0].length - 0.00001:
+            # Play the NoteContainers that are ready for it and have not been
+            # started yet. The list `playing` holds the remaining duration and
+            # the NoteContainer.
             for (n, x) in enumerate(cur):
                 (start_tick, note_length, nc) = bars[n][x]
-                if start_tick <= tick:
+                if started[n] != x and start_tick <= tick + 0.00001:
+                    started[n] = x
                     self.play_NoteContainer(nc, channels[n])
-                    playing_new.append([note_length, n])
                     playing.append([note_length, nc, channels[n], n])
 
                     # Change the length of a quarter note if the NoteContainer
@@ -258,29 +259,17 @@ class Sequencer(object):
                         bpm = nc.bpm
                         qn_length = 60.0 / bpm
 
-            # Sort the list and sleep for the shortest duration
-            if len(playing_new) != 0:
-                playing_new.sort()
-                shortest = playing_new[-1][0]
+            # Sleep until the first of the playing NoteContainers ends
+            if len(playing) != 0:
+                shortest = max([p[0] for p in playing])
                 ms = qn_length * (4.0 / shortest)
                 self.sleep(ms)
                 self.notify_listeners(self.MSG_SLEEP, {"s": ms})
             else:
-                # If somehow, playing_new doesn't contain any notes (something
-                # that shouldn't happen when the bar was filled properly), we
-                # make sure that at least the notes that are still playing get
-                # handled correctly.
-                if len(playing) != 0:
-                    playing.sort()
-                    shortest = playing[-1][0]
-                    ms = qn_length * (4.0 / shortest)
-                    self.sleep(ms)
-                    self.notify_listeners(self.MSG_SLEEP, {"s": ms})
-                else:
-                    # warning: this could lead to some strange behaviour. OTOH.
-                    # Leaving gaps is not the way Bar works. should we do an
-                    # integrity check on bars first?
-                    return {}
+                # warning: this could lead to some strange behaviour. OTOH.
+                # Leaving gaps is not the way Bar works. should we do an
+                # integrity check on bars first?
+                return {}
 
             # Add shortest interval to tick
             tick += 1.0 / shortest
